@@ -3,7 +3,9 @@
 (* test can force by parking the flush worker at its named steps.  Carries the  *)
 (* history with, at every read, what the model predicts the read returns.       *)
 EXTENDS FlushRead, Json
-CONSTANT GenLen
+CONSTANTS GenLen, HoldUntil
+\* HoldUntil = n: the flush worker stays parked at the start of its first job until n events are
+\* stored (deep queues of pending rotations: every rotated buffer is readable only through its passive copy)
 VARIABLE hist
 
 \* a complete atomic read, as one generator step
@@ -26,7 +28,7 @@ GenNext ==
   /\ Len(hist) < GenLen
   /\ IF MustRecv THEN FlushRecv /\ hist' = Append(hist, [a |-> "recv", seg |-> Head(queue)])
      ELSE \/ Store /\ hist' = Append(hist, [a |-> "store", k |-> nst + 1])
-          \/ FlushWrite /\ hist' = Append(hist, [a |-> "write", seg |-> job.seg])
+          \/ nst >= HoldUntil /\ FlushWrite /\ hist' = Append(hist, [a |-> "write", seg |-> job.seg])
           \/ FlushPublish /\ hist' = Append(hist, [a |-> "publish", seg |-> job.seg])
           \/ FlushClear /\ hist' = Append(hist, [a |-> "clear", seg |-> job.seg])
           \/ FlushClean /\ hist' = Append(hist, [a |-> "clean", seg |-> job.seg])
